@@ -615,7 +615,7 @@ static bool explore(RunState &rs, int prog, int bound, int max_violations) {
                     const vs_record &r = g_w[k].slot.rec;
                     if (w.task.pre.choice.empty()) ps.root_schedule = sched_str(r.choice, r.n);
                     ps.last_schedule = sched_str(r.choice, r.n);
-                    if (w.task.mode == MODE_SINGLE && !stop) {
+                    if (w.task.mode == MODE_SINGLE && !stop && !p.single_schedule) {
                         // children of this node
                         int floor = (int)w.task.pre.choice.size();
                         int base = 0; for (int j = 0; j < floor && j < r.n; j++) base += alt_cost(r.flags[j], r.nalt[j], r.choice[j]);
@@ -797,7 +797,8 @@ int main(int argc, char **argv) {
         for (size_t i = 0; i < s.per_bound.size(); i++) fprintf(f, "%s%llu", i ? "," : "", (unsigned long long)s.per_bound[i]);
         bool complete = s.per_bound.size() >= 2 && s.completed_bound == (int)s.per_bound.size() - 1 && s.per_bound[s.per_bound.size() - 1] == s.per_bound[s.per_bound.size() - 2];
         if (p.stateful) complete = s.stateful_done && s.table_full == 0;
-        fprintf(f, "], \"stateful\": %s, \"visited_states\": %llu, \"executions_cut_at_visited_state\": %llu, \"all_schedules_explored\": %s, \"per_bound_contended\": [", p.stateful ? "true" : "false",
+        if (p.single_schedule) complete = false;
+        fprintf(f, "], \"single_schedule\": %s, \"stateful\": %s, \"visited_states\": %llu, \"executions_cut_at_visited_state\": %llu, \"all_schedules_explored\": %s, \"per_bound_contended\": [", p.single_schedule ? "true" : "false", p.stateful ? "true" : "false",
                 (unsigned long long)s.visited_states, (unsigned long long)s.pruned_executions, complete ? "true" : "false");
         for (size_t i = 0; i < s.per_bound_contended.size(); i++) fprintf(f, "%s%llu", i ? "," : "", (unsigned long long)s.per_bound_contended[i]);
         fprintf(f, "], \"default_schedule\": \"%s\", \"last_schedule\": \"%s\"}", s.root_schedule.c_str(), s.last_schedule.c_str());
